@@ -224,7 +224,7 @@ def py_schema(t) -> dict:
     }
 
 
-MINIVEC_OVERLOADS = r"""
+MINIVEC_OVERLOADS = f'#include "{MINIVEC}"  // universes without a variable-length array do not pull it in themselves\n' + r"""
 template <class T> void load(In& in, vf::minivec<T>& v) { std::size_t n = static_cast<std::size_t>(in.next()); v.clear(); for (std::size_t i = 0; i < n; i++) { v.emplace_back(); load(in, v.back()); } }
 template <class T> void dump(Out& o, const vf::minivec<T>& v) { o.put(v.size()); for (std::size_t i = 0; i < v.size(); i++) dump(o, v[i]); }
 inline void load(In& in, vf::minivec<bool>& v) { std::size_t n = static_cast<std::size_t>(in.next()); v.clear(); for (std::size_t i = 0; i < n; i++) v.push_back(in.next() != 0); }
